@@ -106,6 +106,19 @@ def mutants(text, N):
     rep("immutable", "immutable let", "set %s (+ %s %s)" % (m, m, k), "set %s (+ %s %s)" % (k, m, k))
     rep("immutable", "parameter", "    return (+ a b)\n", "    set a 1\n    return (+ a b)\n")
     rep("immutable", "immutable global", "set %s (+ %s %s)" % (m, m, k), "set %s (+ %s %s)" % (G, m, k))
+    # a violation placed after a `return` in the same block (unreachable code is still checked)
+    rep("immutable", "parameter, after a return in the same block", "    return (+ a b)\n}", "    return (+ a b)\n    set a 1\n}")
+    rep("let-type", "string into int, after a return in the same block", "    return (+ a b)\n}", "    return (+ a b)\n    let zq9: int = \"s\"\n}")
+    rep("unknown-name", "variable, after a return inside an if branch", "        return (+ s \"!\")\n", "        return (+ s \"!\")\n        (println zz_undefined)\n")
+    # immutability is a property of the declaration, not of the name: an earlier `let mut` of the same name and type elsewhere
+    rep("immutable", "parameter named like an earlier mutable local of another function", "fn main() -> int {",
+        "fn late9(%s: int) -> int {\n    set %s 5\n    return %s\n}\nshadow late9 { assert (== 1 1) }\nfn main() -> int {" % (t, t, t))
+    rep("immutable", "immutable let named like an earlier mutable local of a closed block", "    return 0\n}\nshadow main",
+        "    if true {\n        let mut zz7: int = 1\n        set zz7 2\n    }\n    let zz7: int = 3\n    set zz7 4\n    return 0\n}\nshadow main")
+    rep("immutable", "immutable let shadowed by a mutable one in a block that has ended", "    return 0\n}\nshadow main",
+        "    let zz8: int = 3\n    if true {\n        let mut zz8: int = 1\n        set zz8 2\n    }\n    set zz8 4\n    return 0\n}\nshadow main")
+    rep("operand-type", "name shadowed by another type in a block that has ended", "    return 0\n}\nshadow main",
+        "    let zz6: string = \"s\"\n    if true {\n        let zz6: int = 1\n        (println zz6)\n    }\n    (println (+ zz6 1))\n    return 0\n}\nshadow main")
     # missing return on some path
     rep("missing-return", "else branch", "    } else {\n        return s\n    }\n", "    } else {\n        (println s)\n    }\n")
     rep("missing-return", "no return at all", "    return %s\n}" % t, "    (println %s)\n}" % t)
